@@ -101,16 +101,22 @@ def load_handler(directory, market, universe=None):
 
 def price_at(market, sym, t):
     """reference pad lookup: last observation (open 14:30 / close 21:00) at or before t; None if none.
-    A missing cell is replaced by the previous observation."""
-    ans = None
-    for row in market[sym]:
-        d, o, c = row[:3]
-        for when, v in ((rm.utc(d, 14, 30), o), (rm.utc(d, 21, 0), c)):
-            if when <= t:
-                if v is not None:
-                    ans = v
-            else:
-                return ans
+    A missing cell is replaced by the previous observation.  A symbol that two data sources hold (sym and sym@2):
+    the first configured source that has a price wins, the second answers only while the first has none."""
+    def one(rows):
+        ans = None
+        for row in rows:
+            d, o, c = row[:3]
+            for when, v in ((rm.utc(d, 14, 30), o), (rm.utc(d, 21, 0), c)):
+                if when <= t:
+                    if v is not None:
+                        ans = v
+                else:
+                    return ans
+        return ans
+    ans = one(market[sym]) if sym in market else None
+    if ans is None and (sym + '@2') in market:
+        ans = one(market[sym + '@2'])
     return ans
 
 
